@@ -6,7 +6,7 @@ PROPERTY = "C01"
 CLAUSES = ["C01.mono", "C01.due", "C01.order", "C01.neg", "C01.noraise"]
 RULE = ("every process program of <= D executed instructions over {return, timeout(0|1|2|0.5), wait/succeed a shared "
         "event, join, interrupt, spawn, raise, timeout(-1)} with 2 initial and <= 4 processes, run to exhaustion or through "
-        "run(until=1|2); non-trivial = two occurrences were pending for the same instant when one of them took effect; "
+        "run(until=t) calls (single and chained, also from a negative initial time to exactly 0), plus a variant with delays 2^-40 and 1-2^-40; non-trivial = two occurrences were pending for the same instant when one of them took effect; "
         "distinct = distinct observation logs")
 ASSUMPTIONS = [
     "occurrences are observed black-box: probe callbacks on every event the harness creates, first statement of a body "
@@ -21,12 +21,18 @@ def plan(tier, seed):
     quick = tier == "quick"
     d = 6 if quick else 7
     cfgs = [dict(depth=d, stop=None), dict(depth=d - 1, stop=1), dict(depth=d - 1, stop=2), dict(depth=d - 1, stop=0.5),
-            dict(depth=d - 1, stop=[1, 2]), dict(depth=d - 1, stop=[0.5, 1, 2])]
+            dict(depth=d - 1, stop=[1, 2]), dict(depth=d - 1, stop=[0.5, 1, 2]),
+            # a clock that starts below zero, stopped exactly at 0 (and at -1, 0): `until` values that are falsy numbers
+            dict(depth=d - 2, stop=[-1, 0], init=-2), dict(depth=d - 2, stop=0.0, init=-1),
+            # delays far below any rounding threshold next to whole instants
+            dict(depth=d - 1, stop=None, tiny=1)]
     return {"cfgs": cfgs, "budget": None, "bound": "D<=%d (run to exhaustion), D<=%d with run(until=0.5|1|2) and chained run(until=1);run(until=2); <=4 processes" % (d, d - 1)}
 
 
 def execute(ch, cfg):
-    k = KC.K(ch, OPS, cfg["depth"], stop_at=cfg["stop"], reaction=False).run()
+    from onl.sim import Environment
+    ops = OPS if not cfg.get("tiny") else [o for o in OPS if o not in (("T", 2), ("T", 0.5))] + [("T", 2.0 ** -40), ("T", 1 - 2.0 ** -40)]
+    k = KC.K(ch, ops, cfg["depth"], stop_at=cfg["stop"], reaction=False, env=Environment(cfg.get("init", 0))).run()
     res = Result()
     res.digest = k.digest()
     res.ev("C01.noraise")
